@@ -56,10 +56,26 @@ def record_plan(cfg):
     meta = dict(cfg)
     ev = []
     try:
+        # schedulers are pure functions of their arguments: calls made earlier in the same process (same configuration
+        # but for ONE parameter) must leave no trace in this plan
+        for pre in cfg.get("pre", ()):
+            try:
+                call_scheduler(dict(cfg, **pre))
+            except BaseException:
+                pass
         p = call_scheduler(cfg)
     except BaseException as exc:  # sys.exit(-1) in the scheduler is a SystemExit
         meta["scheduler_exception"] = f"{type(exc).__name__}: {exc}"
-        return {"meta": meta, "c": c, "ev": [{"t": "built", "ok": 0, "same": 0}]}
+        return {"meta": meta, "c": c, "ev": [{"t": "built", "ok": 0, "same": 0, "eqltf": 1}]}
+    eqltf = 1
+    if cfg["sched"] == "lpsd":
+        # LPSD is documented as the LTF scheduler with bmin = 1 and Lmin = 1
+        try:
+            p2 = call_scheduler(dict(cfg, sched="ltf", bn=1, bd=1, Lmin=1))
+            eqltf = int(all(np.array_equal(np.asarray(p[k]), np.asarray(p2[k])) for k in ("f", "r", "b", "L", "K", "navg"))
+                        and len(p["D"]) == len(p2["D"]) and all(np.array_equal(np.asarray(a_), np.asarray(b_)) for a_, b_ in zip(p["D"], p2["D"])))
+        except BaseException:
+            eqltf = 0
     try:
         f, r, b, L, K, navg, D, O = (p[k] for k in ("f", "r", "b", "L", "K", "navg", "D", "O"))
         nf = len(f)
@@ -97,7 +113,7 @@ def record_plan(cfg):
         meta["bmin_branch_bins"] = int(sum(1 for j in range(nf) if float(b[j]) == bmin_f))
     except Exception as exc:
         meta["recorder_exception"] = f"{type(exc).__name__}: {exc}"
-        ev.append({"t": "built", "ok": 0, "same": 0})
+        ev.append({"t": "built", "ok": 0, "same": 0, "eqltf": eqltf})
         return {"meta": meta, "c": c, "ev": ev}
     # the analyzer path
     ok = 1
@@ -124,7 +140,7 @@ def record_plan(cfg):
     except BaseException as exc:
         ok = 0
         meta["analyzer_exception"] = f"{type(exc).__name__}: {exc}"
-    ev.append({"t": "built", "ok": ok, "same": same if ok else 0})
+    ev.append({"t": "built", "ok": ok, "same": same if ok else 0, "eqltf": eqltf})
     return {"meta": meta, "c": c, "ev": ev}
 
 
@@ -188,6 +204,20 @@ def grid_configs(tier: str, seed: int, scheds=("lpsd", "ltf", "vectorized", "new
         bn = rnd.randint(bd, max(bd, min((20 if rnd.random() < 0.3 else 8) * bd, (N * bd) // 2 - 1)))
         out.append(mk(N, on, od, bn, bd, rnd.randint(1, N), rnd.choice([1, 2, 3, 5, 7, 20, 100, 300]),
                       rnd.randint(1, 120), rnd.choice(scheds)))
+    # the same configuration after a call that differed in one parameter only (history independence), and very fine grids
+    base = [c for c in out if admissible(c) and c["N"] >= 100][:24 if tier == "quick" else 200]
+    for k, c in enumerate(base):
+        bn2 = max(c["bd"], (c["bn"] * (1 + k % 3)) // 2) if k % 2 else c["bd"]
+        pre = [dict(bn=bn2), dict(Lmin=max(1, c["Lmin"] // 2)), dict(Kdes=c["Kdes"] + 3), dict(on=0, od=1), dict(Jdes=c["Jdes"] + 1)][k % 5]
+        out.append(dict(c, pre=[pre], sched=("lpsd", "ltf", "vectorized", "new")[k % 4] if len(scheds) == 4 else c["sched"]))
+        # every bmin against a smaller and a larger one
+        if k % 4 == 2:
+            out.append(dict(c, bn=8, bd=1, pre=[dict(bn=1, bd=1)], sched="vectorized" if "vectorized" in scheds else c["sched"]))
+            out.append(dict(c, bn=3, bd=2, pre=[dict(bn=12, bd=1)], sched="vectorized" if "vectorized" in scheds else c["sched"]))
+    for k, J in enumerate([5001, 6000, 20000] if tier == "quick" else [5001, 5002, 6000, 9999, 20000, 100000]):
+        for s_ in scheds:
+            if s_ != "new":
+                out.append(dict(N=[4096, 1000, 20000][k % 3], fs=[1.0, 1000.0, 2.0][k % 3], on=1, od=2, bn=1, bd=1, Lmin=1, Jdes=J, Kdes=[5, 1, 20][k % 3], sched=s_))
     # very long records with short segments: bins with 1e5 and more segments (SchedTrace.tla HBin)
     for k, s in enumerate(x for x in ("ltf", "lpsd", "vectorized", "ltf", "new") if x in scheds):
         if tier == "quick" and k >= 4:
